@@ -44,6 +44,16 @@ Theorem C03_frontlocal_unfixed_refuted :
 Proof. exact frontlocal_unfixed_refuted. Qed.
 Print Assumptions C03_frontlocal_unfixed_refuted.
 
+(* The same, request by request (what the harness compares: an issuer serves the requests of
+   different connections in an order the history does not fix, so arrivals are matched per
+   issuer, connection and request tag, and the order across requests by the issue counters). *)
+Theorem C03_order_per_request : forall fixed logs sched i c t,
+  owned_logs logs -> (fixed = true \/ i <> front) ->
+  drained (run_sched fixed (start logs) sched) ->
+  proj3 i c t (lookup (got (run_sched fixed (start logs) sched)) c) = proj3 i c t (lookup logs i).
+Proof. exact order_per_request. Qed.
+Print Assumptions C03_order_per_request.
+
 (* The full invariant: received, queued for the socket, in the front's mailbox, not yet
    issued - concatenated in that order - is the issue log, at every moment. *)
 Theorem C03_order_invariant : forall fixed logs sched i c,
